@@ -91,6 +91,9 @@ def step (w : World) (ws : List String) : Option (World × String) :=
   | ["msg", m, h] => match Fr.parse? h with
     | some h => some ({ w with msgs := (w.msgs.filter (·.1 != m)) ++ [(m, h)] }, "ok")
     | none => bad w
+  | ["rawmsg", m, h] => match Fr.parse? h with
+    | some h => if (msg? w m).isSome then some (w, "ok") else some ({ w with msgs := w.msgs ++ [(m, h)] }, "ok")
+    | none => bad w
   /- client keys (`core/encryption/bls0chain.go`) -/
   | ["key", name, sk] => match Fr.parse? sk with
     | some sk =>
@@ -184,6 +187,17 @@ def step (w : World) (ws : List String) : Option (World × String) :=
       | some p' => some (setParty w ii p', "ok")
       | none => some (w, "err")
     | _, _, _ => bad w
+  | ["rundkg"] =>
+    -- the honest run: every party receives every party's share, aggregates, and derives all group public keys
+    let all := w.parties.map (·.2)
+    let step1 (w : World) (e : Nat × Party Fr) : Option World := do
+      let p ← all.foldlM (fun acc q => (computeShare q acc.id).bind (fun s => addSecretShare acc q.id s false)) e.2
+      let p := aggregateSecretKeyShares p
+      let p ← aggregatePublicKeyShares p (all.map (fun q => (q.id, mpk q)))
+      pure (setParty w e.1 p)
+    match w.parties.foldlM step1 w with
+    | some w => some (w, "ok")
+    | none => some (w, "err")
   | ["gpk", i, k] => match i.toNat?.bind (party? w), k.toNat?.bind (party? w) with
     | some p, some q => some (labK w (publicKeyById p q.id))
     | _, _ => bad w
